@@ -38,14 +38,14 @@ def make_env(rng, N=None, p=None):
     return {"N": N, "p": p, "life": life, "utab": utab, "ttab": ttab, "rows": rows}
 
 
-def write_forcing(d, name, times, ulev, tlev):
+def write_forcing(d, name, times, ulev, tlev, time_unit="s"):
     """ulev/tlev: per frame, per level values (uniform horizontally)"""
     T = len(times)
     u = np.zeros((T, NLEV, JMAX, IMAX - 1)); t = np.zeros((T, NLEV, JMAX, IMAX))
     for k in range(T):
         for lev in range(NLEV):
             u[k, lev] = ulev[k][lev]; t[k, lev] = tlev[k][lev]
-    return rf.write_roms(d / name, imax=IMAX, jmax=JMAX, N=NLEV, times=times, u=u, extra={"temp": t}, h=120.0, dx=DX)
+    return rf.write_roms(d / name, imax=IMAX, jmax=JMAX, N=NLEV, times=times, u=u, extra={"temp": t}, h=120.0, dx=DX, time_unit=time_unit)
 
 
 def config(d, env, start, stop, out, rel, forcing, numrec=0, rev=False, adv="EF"):
@@ -75,11 +75,11 @@ def records(paths, tstart, rev=False):
     return out
 
 
-def run_forward(d, env, name, keep=None, shift=0, numrec=0, adv="EF", order=None):
+def run_forward(d, env, name, keep=None, shift=0, numrec=0, adv="EF", order=None, time_unit="s"):
     N = env["N"]
     t0 = 50000 + shift
     times = [t0 + k * DT for k in range(N + 1)]
-    write_forcing(d, f"f_{name}.nc", times, env["utab"] + [[0.0] * NLEV], env["ttab"] + [[0.0] * NLEV])
+    write_forcing(d, f"f_{name}.nc", times, env["utab"] + [[0.0] * NLEV], env["ttab"] + [[0.0] * NLEV], time_unit=time_unit)
     idx = [i for i in range(len(env["rows"])) if keep is None or i in keep]
     if order:
         idx = order
